@@ -46,6 +46,8 @@ N == Len(hist)
 \* iterator splits to check in this state
 Splits == IF N \in FullIter THEN 0..N ELSE {0, 1, N - 1, N} \cap 0..N
 
+FoldSplits == IF N <= 12 THEN 0..N ELSE {0, 1, 2, N - 2, N - 1, N}
+
 TypeOK == WellFormed(w) /\ w.size = N
 
 PushInv ==      \* push returns the value pushed N steps before; empty window panics
@@ -113,12 +115,18 @@ Emit ==
           empty  |-> WIsEmpty(w),
           get    |-> [i \in 1..(N + 2) |-> WGet(w, i - 1)],
           idx    |-> [i \in 1..(N + 2) |-> WIndex(w, i - 1)],
+          \* per split k: size_hint, last(), next(), nth(1), and -- for the splits in FoldSplits -- what the
+          \* remaining part yields when it is drained through fold / try_fold based adaptors
           iter   |-> LET f == ItFull(w, N + 1)
                      IN  [k \in 1..(N + 1) |->
-                            [hint |-> ItSizeHint(f.its[k]), last |-> ItLast(w, f.its[k]), nxt |-> f.outs[k]]],
+                            [hint |-> ItSizeHint(f.its[k]), last |-> ItLast(w, f.its[k]), nxt |-> f.outs[k],
+                             nth1 |-> AbsNth(AbsIter(hist), k - 1, 1),
+                             rest |-> IF (k - 1) \in FoldSplits THEN AbsRest(AbsIter(hist), k - 1) ELSE <<"skip">>]],
           rev    |-> LET r == RevFull(w, N + 1)
                      IN  [k \in 1..(N + 1) |->
-                            [hint |-> ItSizeHint(r.its[k]), last |-> RevLast(w, r.its[k]), nxt |-> r.outs[k]]],
+                            [hint |-> ItSizeHint(r.its[k]), last |-> RevLast(w, r.its[k]), nxt |-> r.outs[k],
+                             nth1 |-> AbsNth(AbsRev(hist), k - 1, 1),
+                             rest |-> IF (k - 1) \in FoldSplits THEN AbsRest(AbsRev(hist), k - 1) ELSE <<"skip">>]],
           buf    |-> WAsSlice(w),
           index  |-> w.index
       ])>>)
@@ -128,7 +136,7 @@ Emit ==
 AllCaps   == 0..(PMAX - 1)
 SmallCaps == 0..24 \cup {127, 128}
 IterCaps  == 0..24 \cup {63, 64, 127, 128, PMAX - 2, PMAX - 1}
-EmitSmall == 0..9 \cup {PMAX - 2, PMAX - 1}
+EmitSmall == 0..9 \cup {PMAX - 1}
 NoCaps    == {}
 OneCap    == {PMAX - 1}
 =============================================================================
